@@ -2,6 +2,7 @@
 // Klein bottle, a Moore-like space; random flag complexes with ties) for Trace_PC.tla.
 // usage: pc_record outdir seed n_random
 #include "common.hpp"
+#include <sys/wait.h>
 
 #include <gudhi/Simplex_tree.h>
 #include <gudhi/Persistent_cohomology.h>
@@ -44,7 +45,35 @@ bj::array exposed_cells(ST& st, int p) {
   return cells;
 }
 
+// every run of the engine happens in a forked child which appends its event to the trace; a crash of the engine
+// becomes a "crash" event written by the parent (the check separates those from the events TLC validates)
+template <class F>
+void isolated(Trace& tr, const bj::object& what, F&& body) {
+  std::fflush(tr.f);
+  pid_t pid = fork();
+  if (pid == 0) { body(); std::fflush(tr.f); _exit(0); }
+  int status = 0;
+  waitpid(pid, &status, 0);
+  if (!(WIFEXITED(status) && WEXITSTATUS(status) == 0)) {
+    bj::object ev = what;
+    ev["op"] = "crash";
+    ev["signal"] = WIFSIGNALED(status) ? WTERMSIG(status) : -WEXITSTATUS(status);
+    tr.emit(ev);
+    std::fflush(tr.f);
+  }
+}
+
+void run_zp_(Trace& tr, ST& st, int p, double minlen, bool flag, const char* name);
+void run_multi_(Trace& tr, ST& st, int lo, int hi, const std::vector<int>& primes, double minlen, bool flag, const char* name);
 void run_zp(Trace& tr, ST& st, int p, double minlen, bool flag, const char* name) {
+  isolated(tr, bj::object{{"engine", "Field_Zp"}, {"name", name}, {"p", p}, {"minlen", fv(minlen)}, {"flag", flag}},
+           [&] { run_zp_(tr, st, p, minlen, flag, name); });
+}
+void run_multi(Trace& tr, ST& st, int lo, int hi, const std::vector<int>& primes, double minlen, bool flag, const char* name) {
+  isolated(tr, bj::object{{"engine", "Multi_field"}, {"name", name}, {"lo", lo}, {"hi", hi}, {"minlen", fv(minlen)}, {"flag", flag}},
+           [&] { run_multi_(tr, st, lo, hi, primes, minlen, flag, name); });
+}
+void run_zp_(Trace& tr, ST& st, int p, double minlen, bool flag, const char* name) {
   pc::Persistent_cohomology<ST, pc::Field_Zp> pcoh(st, flag);
   pcoh.init_coefficients(p);
   pcoh.compute_persistent_cohomology(minlen);
@@ -54,7 +83,7 @@ void run_zp(Trace& tr, ST& st, int p, double minlen, bool flag, const char* name
   tr.emit(bj::object{{"op", "pc"}, {"name", name}, {"p", p}, {"minlen", fv(minlen)}, {"flag", flag}, {"dimK", st.dimension()},
                      {"cells", exposed_cells(st, p)}, {"pairs", pairs}});
 }
-void run_multi(Trace& tr, ST& st, int lo, int hi, const std::vector<int>& primes, double minlen, bool flag, const char* name) {
+void run_multi_(Trace& tr, ST& st, int lo, int hi, const std::vector<int>& primes, double minlen, bool flag, const char* name) {
   pc::Persistent_cohomology<ST, pc::Multi_field> pcoh(st, flag);
   pcoh.init_coefficients(lo, hi);
   pcoh.compute_persistent_cohomology(minlen);
@@ -81,7 +110,6 @@ int main(int argc, char** argv) {
   std::string outdir = argv[1];
   std::mt19937_64 rng(std::strtoull(argv[2], nullptr, 10) * 7777 + 5);
   int n_random = std::atoi(argv[3]);
-  install_crash_handlers();
   const int primes[] = {2, 3, 5, 7, 11, 46337};
   {
     Trace tr(outdir + "/pc_torsion.ndjson");
@@ -99,6 +127,17 @@ int main(int argc, char** argv) {
         run_zp(tr, klein, p, rep == 0 ? 0 : -1, flag, "klein");
       }
       for (int p : {2, 3, 5}) run_zp(tr, moore3, p, 0, true, "moore3");
+      // cones: one simplex can kill different classes over different primes
+      ST cone_rp2;
+      {
+        std::vector<std::vector<int>> tops = {{1,2,4},{1,2,5},{1,3,4},{1,3,6},{1,5,6},{2,3,5},{2,3,6},{2,4,6},{3,4,5},{4,5,6}};
+        for (auto& t : tops) cone_rp2.insert_simplex_and_subfaces(t, 0.);
+        for (auto t : tops) { t.push_back(7); cone_rp2.insert_simplex_and_subfaces(t, 1.); }
+        cone_rp2.make_filtration_non_decreasing();
+      }
+      for (int p : {2, 3}) run_zp(tr, cone_rp2, p, 0, true, "cone_rp2");
+      run_multi(tr, cone_rp2, 2, 3, {2, 3}, 0, true, "cone_rp2");
+      run_multi(tr, cone_rp2, 2, 5, {2, 3, 5}, -1, false, "cone_rp2");
       run_multi(tr, rp2, 2, 3, {2, 3}, 0, true, "rp2");
       run_multi(tr, rp2, 2, 5, {2, 3, 5}, 0, true, "rp2");
       run_multi(tr, klein, 3, 7, {3, 5, 7}, 0, true, "klein");
